@@ -5,7 +5,7 @@
    5. the handlers of VmModel only ever do to the code what the trace language can express. *)
 From Coq Require Import Lia ZArith.
 From Coq Require Import ZifyN ZifyNat ZifyBool.
-From Vise Require Import Bytes BytesProofs SliceHeap.
+From Vise Require Import Bytes BytesProofs Errors Consts EngConsts Codec CodecProofs CacheModel StateModel NavModel RenderModel VmModel EngineModel SliceHeap.
 Local Open Scope N_scope.
 
 (* ---- 1. arithmetic ------------------------------------------------------------------------------ *)
@@ -355,6 +355,9 @@ Qed.
 (* ---- 3. schedules ------------------------------------------------------------------------------------ *)
 Definition wobs (w : world) (s : N) : list N * list N := sess_obs (w_heap w) (w_sess w s).
 
+Definition pure_exec (tbl : list (list N * list N)) (p : list N * list N) (ops : list op) : list N * list N :=
+  fold_left (pure_step tbl) ops p.
+
 Definition writes_owned (e : tev) : Prop :=
   forall a, In a (te_writes e) -> exists k, a = (OOwned (te_sid e), k).
 
@@ -392,22 +395,28 @@ Lemma run_refines c : forall sched w w' tr,
   sched_repaired sched = true -> winv (sc_res c) w -> run_sched c w sched = (w', tr) ->
   winv (sc_res c) w' /\
   (forall s, obs_of s tr = pure_run (sc_res c) (wobs w s) (map snd (sched_of s sched))) /\
+  (forall s, wobs w' s = pure_exec (sc_res c) (wobs w s) (map snd (sched_of s sched))) /\
   Forall writes_owned tr.
 Proof.
   induction sched as [|[sid o] r IH]; intros w w' tr Hrep Hinv Hrun.
-  - inversion Hrun; subst. split; [exact Hinv|]. split; [reflexivity|constructor].
+  - inversion Hrun; subst. split; [exact Hinv|]. split; [reflexivity|]. split; [reflexivity|constructor].
   - cbn [run_sched] in Hrun. cbn [sched_repaired forallb snd] in Hrep. apply andb_true_iff in Hrep as [Ho Hr].
     destruct (world_step c w sid o) as [w1 e] eqn:E1.
     destruct (run_sched c w1 r) as [w2 es] eqn:E2.
     inversion Hrun; subst w' tr. clear Hrun.
     destruct (world_step_sound _ _ _ _ _ _ Ho Hinv E1) as (J1 & J2 & J3 & J4 & J5 & J6).
-    destruct (IH _ _ _ Hr J1 E2) as (K1 & K2 & K3).
-    split; [exact K1|]. split; [|constructor; assumption].
-    intros s. unfold obs_of, sched_of. cbn [filter fst]. rewrite J2.
-    destruct (sid =? s) eqn:Es.
-    + apply N.eqb_eq in Es. subst s. cbn [map snd pure_run te_obs].
-      rewrite <- J3. f_equal. fold (obs_of sid es). rewrite K2. now rewrite J4.
-    + apply N.eqb_neq in Es. fold (obs_of s es). rewrite K2. rewrite J5 by congruence. reflexivity.
+    destruct (IH _ _ _ Hr J1 E2) as (K1 & K2 & K2' & K3).
+    split; [exact K1|]. split; [|split; [|constructor; assumption]].
+    + intros s. unfold obs_of, sched_of. cbn [filter fst]. rewrite J2.
+      destruct (sid =? s) eqn:Es.
+      * apply N.eqb_eq in Es. subst s. cbn [map snd pure_run te_obs].
+        rewrite <- J3. f_equal. fold (obs_of sid es). rewrite K2. now rewrite J4.
+      * apply N.eqb_neq in Es. fold (obs_of s es). rewrite K2. rewrite J5 by congruence. reflexivity.
+    + intros s. rewrite K2'. unfold sched_of. cbn [filter fst].
+      destruct (sid =? s) eqn:Es.
+      * apply N.eqb_eq in Es. subst s. cbn [map snd]. unfold pure_exec. cbn [fold_left].
+        now rewrite J4, J3.
+      * apply N.eqb_neq in Es. rewrite J5 by congruence. reflexivity.
 Qed.
 
 Lemma winv_init tbl : winv tbl (world_init tbl).
@@ -435,9 +444,9 @@ Proof.
   intros Hres Hinv Hrep.
   destruct (run_sched c w sched) as [w1 t1] eqn:E1.
   destruct (run_sched c' w (sched_of s sched)) as [w2 t2] eqn:E2. cbn [snd].
-  destruct (run_refines c _ _ _ _ Hrep Hinv E1) as (_ & R1 & _).
+  destruct (run_refines c _ _ _ _ Hrep Hinv E1) as (_ & R1 & _ & _).
   rewrite <- Hres in Hinv.
-  destruct (run_refines c' _ _ _ _ (sched_of_repaired s _ Hrep) Hinv E2) as (_ & R2 & _).
+  destruct (run_refines c' _ _ _ _ (sched_of_repaired s _ Hrep) Hinv E2) as (_ & R2 & _ & _).
   rewrite R1, R2, sched_of_idem, Hres. reflexivity.
 Qed.
 
@@ -447,7 +456,7 @@ Lemma no_write_to_shared c w sched :
   shared_intact (sc_res c) (w_heap (fst (run_sched c w sched))).
 Proof.
   intros Hinv Hrep. destruct (run_sched c w sched) as [w1 t1] eqn:E1.
-  destruct (run_refines c _ _ _ _ Hrep Hinv E1) as ([R0 _] & _ & R2). cbn [fst snd]. split; assumption.
+  destruct (run_refines c _ _ _ _ Hrep Hinv E1) as ([R0 _] & _ & _ & R2). cbn [fst snd]. split; assumption.
 Qed.
 
 (* ---- 4. request-level interleaving -------------------------------------------------------------------- *)
@@ -473,3 +482,376 @@ Proof.
   - replace (sid =? t) with false in IH by (symmetry; apply N.eqb_neq; apply N.eqb_neq in Et; congruence).
     exact IH.
 Qed.
+
+(* ---- 5. VmModel's handlers and the trace language ------------------------------------------------------- *)
+Definition suffix (r b : list N) : Prop := exists pre, b = pre ++ r.
+
+Lemma suffix_refl b : suffix b b.
+Proof. exists []. reflexivity. Qed.
+Lemma suffix_cons x r b : suffix r b -> suffix r (x :: b).
+Proof. intros [p ->]. exists (x :: p). reflexivity. Qed.
+Lemma suffix_trans a b c : suffix a b -> suffix b c -> suffix a c.
+Proof. intros [p ->] [q ->]. exists (q ++ p). now rewrite app_assoc. Qed.
+Lemma suffix_drop r b : suffix r b -> exists n, r = drop n b /\ n <= len b.
+Proof. intros [p ->]. exists (len p). split; [now rewrite drop_app_exact|rewrite len_app; lia]. Qed.
+Lemma suffix_of_drop n (b : list N) : suffix (drop n b) b.
+Proof. exists (take n b). unfold take, drop. now rewrite firstn_skipn. Qed.
+
+Lemma strict_sym_suffix b s r : strict_sym b = Some (s, r) -> suffix r b.
+Proof.
+  destruct b as [|sz r0]; cbn [strict_sym]; [discriminate|].
+  destruct ((sz =? 0) || (len r0 <? sz)); [discriminate|]. intros H. inversion H; subst.
+  apply suffix_cons, suffix_of_drop.
+Qed.
+Lemma strict_int_suffix b n r : strict_int b = Some (n, r) -> suffix r b.
+Proof.
+  destruct b as [|l r0]; cbn [strict_int]; [discriminate|].
+  destruct ((4 <? l) || (len r0 <? l)); [discriminate|]. intros H. inversion H; subst.
+  apply suffix_cons, suffix_of_drop.
+Qed.
+Lemma strict_mode_suffix b m r : strict_mode b = Some (m, r) -> suffix r b.
+Proof. destruct b as [|x r0]; cbn [strict_mode]; [discriminate|]. intros H. inversion H; subst. apply suffix_cons, suffix_refl. Qed.
+
+Lemma strict_one_suffix b i r : strict_one b = Some (i, r) -> suffix r b.
+Proof.
+  destruct b as [|h [|l r0]]; cbn [strict_one]; try discriminate. cbv zeta.
+  intros H. apply suffix_cons, suffix_cons.
+  repeat match type of H with
+  | context [if ?c then _ else _] => destruct c
+  end;
+  repeat match type of H with
+  | context [match strict_sym ?x with _ => _ end] =>
+    let E := fresh "E" in destruct (strict_sym x) as [[? ?]|] eqn:E; [apply strict_sym_suffix in E|discriminate H]
+  | context [match strict_int ?x with _ => _ end] =>
+    let E := fresh "E" in destruct (strict_int x) as [[? ?]|] eqn:E; [apply strict_int_suffix in E|discriminate H]
+  | context [match strict_mode ?x with _ => _ end] =>
+    let E := fresh "E" in destruct (strict_mode x) as [[? ?]|] eqn:E; [apply strict_mode_suffix in E|discriminate H]
+  end; try discriminate H; inversion H; subst;
+  eauto using suffix_refl, suffix_trans.
+Qed.
+
+(* OpConsume: decoding one instruction hands on a suffix of the code *)
+Lemma decode_consumes b op b1 i b2 :
+  op_split b = Ok (op, b1) -> parse_args op b1 = Ok (i, b2) -> exists n, b2 = drop n b /\ n <= len b.
+Proof.
+  intros H1 H2. apply suffix_drop. apply (strict_one_suffix b i). apply decode_one_strict.
+  unfold decode_one. rewrite H1. cbn [obind]. exact H2.
+Qed.
+
+(* what one handler can do to the code it is handed (value semantics), in the trace language *)
+Inductive buf_effect (rs : rsrc) (b b' : list N) : Prop :=
+| BeKeep : b' = b -> buf_effect rs b b'                                   (* no operation *)
+| BeEmpty : b' = [] -> buf_effect rs b b'                                 (* OpReplaceFresh [] (CROAK) *)
+| BeAppend sym c : rs_code rs sym = Ok c -> b' = b ++ c -> buf_effect rs b b'   (* OpAppendFromResource *)
+| BeReplace sym c : rs_code rs sym = Ok c -> b' = c -> buf_effect rs b b'.      (* OpReplaceFromResource *)
+
+Ltac dm H :=
+  repeat match type of H with
+  | context [match ?x with _ => _ end] => destruct x eqn:?
+  | context [if ?x then _ else _] => destruct x eqn:?
+  end.
+
+Lemma fetch_code_snd rs sym v : snd (fetch_code rs sym v) = rs_code rs sym.
+Proof. reflexivity. Qed.
+
+Lemma run_catch_buf rs sym sig mode b v v' b' s :
+  run_catch rs sym sig mode b v = (v', b', s) ->
+  b' = b \/ exists nsym c, rs_code rs nsym = Ok c /\ b' = c.
+Proof.
+  unfold run_catch. intros H.
+  destruct (match_flag (v_st v) sig mode) as [[|]|e|n]; try (inversion H; subst; now left).
+  destruct (apply_target sym (v_st v) (v_ca v)) as [[[st' ca'] nsym] s0].
+  destruct s0; try (inversion H; subst; now left).
+  match type of H with context [fetch_code ?r ?n ?x] =>
+    pose proof (fetch_code_snd r n x) as Hf; destruct (fetch_code r n x) as [v2 c0] end.
+  cbn [snd] in Hf. subst c0.
+  destruct (rs_code rs nsym) as [code|e|n] eqn:Ec; inversion H; subst; [right; eauto|now left|now left].
+Qed.
+
+Lemma run_move_buf rs sep sym b v v' b' s :
+  run_move rs sep sym b v = (v', b', s) ->
+  b' = b \/ exists nsym c, rs_code rs nsym = Ok c /\ b' = b ++ c.
+Proof.
+  unfold run_move. intros H.
+  destruct (apply_target sym (v_st v) (v_ca v)) as [[[st' ca'] nsym] s0].
+  destruct s0; try (inversion H; subst; now left).
+  match type of H with context [fetch_code ?r ?n ?x] =>
+    pose proof (fetch_code_snd r n x) as Hf; destruct (fetch_code r n x) as [v2 c0] end.
+  cbn [snd] in Hf. subst c0.
+  destruct (rs_code rs nsym) as [code|e|n] eqn:Ec; inversion H; subst; [right; eauto|now left|now left].
+Qed.
+
+Lemma run_incmp_buf rs sep dest sel b v v' b' s :
+  run_incmp rs sep dest sel b v = (v', b', s) ->
+  b' = b \/ exists nsym c, rs_code rs nsym = Ok c /\ b' = b ++ c.
+Proof.
+  unfold run_incmp. intros H.
+  destruct (getf (v_st v) FLAG_INMATCH && getf (v_st v) FLAG_READIN); [inversion H; subst; now left|].
+  cbv zeta in H.
+  match type of H with context [s_input ?x] => destruct (s_input x) as [input|] end;
+    [|inversion H; subst; now left].
+  match type of H with context [if ?c then _ else _] => destruct c end; [|inversion H; subst; now left].
+  match type of H with context [apply_target ?a ?b ?c] => destruct (apply_target a b c) as [[[st' ca'] nsym] s0] end.
+  destruct s0 as [|e msg|n|]; try (inversion H; subst; now left).
+  - match type of H with context [fetch_code ?r ?n ?x] =>
+      pose proof (fetch_code_snd r n x) as Hf; destruct (fetch_code r n x) as [v3 c0] end.
+    cbn [snd] in Hf. subst c0.
+    destruct (rs_code rs nsym) as [code|e|n] eqn:Ec; inversion H; subst; [right; eauto|now left|now left].
+  - destruct e; inversion H; subst; now left.
+Qed.
+
+Lemma exec_instr_buf rs sep lang i b v v' b' s :
+  exec_instr rs sep lang i b v = (v', b', s) -> buf_effect rs b b'.
+Proof.
+  destruct i; cbn [exec_instr]; intros H.
+  - inversion H; subst. now apply BeKeep.
+  - apply run_catch_buf in H. destruct H as [->|(n & c & Hc & ->)]; [now apply BeKeep|eapply BeReplace; eauto].
+  - unfold run_croak in H. dm H; inversion H; subst; first [now apply BeKeep|now apply BeEmpty].
+  - unfold run_load in H. destruct (cache_get (v_ca v) sym); try (inversion H; subst; now apply BeKeep).
+    destruct (refresh rs lang sym v) as [[v1 content] s1].
+    destruct s1; try (inversion H; subst; now apply BeKeep).
+    dm H; inversion H; subst; now apply BeKeep.
+  - unfold run_reload in H. destruct (refresh rs lang sym v) as [[v1 content] s1].
+    destruct s1; try (inversion H; subst; now apply BeKeep).
+    destruct (cache_update_raw (v_ca v1) sym content) as [ca' x].
+    dm H; inversion H; subst; now apply BeKeep.
+  - unfold run_map in H. dm H; inversion H; subst; now apply BeKeep.
+  - apply run_move_buf in H. destruct H as [->|(n & c & Hc & ->)]; [now apply BeKeep|eapply BeAppend; eauto].
+  - inversion H; subst. now apply BeKeep.
+  - apply run_incmp_buf in H. destruct H as [->|(n & c & Hc & ->)]; [now apply BeKeep|eapply BeAppend; eauto].
+  - inversion H; subst. now apply BeKeep.
+  - inversion H; subst. now apply BeKeep.
+  - inversion H; subst. now apply BeKeep.
+  - inversion H; subst. now apply BeKeep.
+Qed.
+
+(* closure: everything the trace language can do to a buffer, in value semantics *)
+Inductive buf_reach (rs : rsrc) : list N -> list N -> Prop :=
+| BrRefl b : buf_reach rs b b
+| BrConsume b n b' : buf_reach rs (drop n b) b' -> buf_reach rs b b'
+| BrAppend b sym c b' : rs_code rs sym = Ok c -> buf_reach rs (b ++ c) b' -> buf_reach rs b b'
+| BrReplace b sym c b' : rs_code rs sym = Ok c -> buf_reach rs c b' -> buf_reach rs b b'
+| BrFresh b d b' : d = [] \/ d = move_catch_code -> buf_reach rs d b' -> buf_reach rs b b'.
+
+Lemma buf_reach_effect rs b b1 b' : buf_effect rs b b1 -> buf_reach rs b1 b' -> buf_reach rs b b'.
+Proof.
+  intros [->| -> |sym c Hc ->|sym c Hc ->] Hr.
+  - exact Hr.
+  - eapply BrFresh; [left; reflexivity|exact Hr].
+  - eapply BrAppend; eauto.
+  - eapply BrReplace; eauto.
+Qed.
+
+Lemma dead_check_buf v v3 b4 s3 : dead_check v = (v3, b4, s3) -> b4 = [] \/ b4 = move_catch_code.
+Proof. unfold dead_check. intros H. dm H; inversion H; subst; auto. Qed.
+
+Lemma op_split_suffix b op b1 : op_split b = Ok (op, b1) -> exists n, b1 = drop n b.
+Proof.
+  intros H. apply op_split_shape in H. destruct H as (h & l & -> & _ & _). exists 2. reflexivity.
+Qed.
+
+(* Run, whatever the program and the state: the code it returns is obtained from the code it was
+   given by operations of the trace language only *)
+Lemma run_buf_reach rs sep : forall fuel lang b v v' b' s,
+  run fuel rs sep lang b v = (v', b', s) -> buf_reach rs b b'.
+Proof.
+  induction fuel as [|fuel IH]; intros lang b v v' b' s H; cbn [run] in H.
+  { inversion H; subst. apply BrRefl. }
+  destruct (getf (v_st v) FLAG_TERMINATE).
+  { inversion H; subst. eapply BrFresh; [left; reflexivity|apply BrRefl]. }
+  cbv zeta in H.
+  destruct (op_split b) as [[op b1]|e|n] eqn:Eop; try (inversion H; subst; apply BrRefl).
+  destruct (op_split_suffix _ _ _ Eop) as [n1 Hb1].
+  assert (Hstep : forall v1 b2 s1 vv,
+    buf_reach rs b b2 ->
+    (if op =? op_HALT then (v1, b2, s1) else
+       let '(v2, b3, s2) :=
+         match s1 with
+         | SErr e msg =>
+           let v2 := set_page_err v1 msg in
+           if getf (v_st v2) FLAG_LOADFAIL && negb (bytes_eqb (where_sym (v_st v2)) catch_sym)
+           then (v2, move_catch_code, SOk) else (v2, b2, s1)
+         | _ => (v1, b2, s1)
+         end in
+       match s2 with
+       | SOk =>
+         match b3 with
+         | [] =>
+           let '(v3, b4, s3) := dead_check v2 in
+           match s3 with
+           | SOk => match b4 with [] => (v3, [], SOk) | _ => run fuel rs sep vv b4 v3 end
+           | _ => (v3, b4, s3)
+           end
+         | _ => run fuel rs sep vv b3 v2
+         end
+       | _ => (v2, b3, s2)
+       end) = (v', b', s) -> buf_reach rs b b').
+  { intros v1 b2 s1 vv Hr Hx.
+    assert (Htr : forall x y, buf_reach rs b x -> buf_reach rs x y -> buf_reach rs b y).
+    { clear. intros x y H1. induction H1; intros H2; [exact H2|..].
+      - eapply BrConsume; eauto.
+      - eapply BrAppend; eauto.
+      - eapply BrReplace; eauto.
+      - eapply BrFresh; eauto. }
+    destruct (op =? op_HALT); [inversion Hx; subst; exact Hr|].
+    assert (Hmid : forall v2 b3 s2,
+      buf_reach rs b b3 ->
+      match s2 with
+      | SOk =>
+        match b3 with
+        | [] =>
+          let '(v3, b4, s3) := dead_check v2 in
+          match s3 with
+          | SOk => match b4 with [] => (v3, [], SOk) | _ => run fuel rs sep vv b4 v3 end
+          | _ => (v3, b4, s3)
+          end
+        | _ => run fuel rs sep vv b3 v2
+        end
+      | _ => (v2, b3, s2)
+      end = (v', b', s) -> buf_reach rs b b').
+    { intros v2 b3 s2 Hr3 Hy.
+      destruct s2; try (inversion Hy; subst; exact Hr3).
+      destruct b3 as [|x b3'].
+      - destruct (dead_check v2) as [[v3 b4] s3] eqn:Ed.
+        apply dead_check_buf in Ed.
+        assert (Hr4 : buf_reach rs b b4).
+        { apply (Htr [] b4 Hr3). eapply BrFresh; [exact Ed|apply BrRefl]. }
+        destruct s3; try (inversion Hy; subst; exact Hr4).
+        destruct b4 as [|y b4']; [inversion Hy; subst; exact Hr4|].
+        apply IH in Hy. exact (Htr _ _ Hr4 Hy).
+      - apply IH in Hy. exact (Htr _ _ Hr3 Hy). }
+    destruct s1 as [|e msg|n|].
+    - exact (Hmid v1 b2 SOk Hr Hx).
+    - cbv zeta in Hx.
+      destruct (getf (v_st (set_page_err v1 msg)) FLAG_LOADFAIL && negb (bytes_eqb (where_sym (v_st (set_page_err v1 msg))) catch_sym)).
+      + exact (Hmid (set_page_err v1 msg) move_catch_code SOk (Htr _ _ Hr (BrFresh rs b2 move_catch_code _ (or_intror eq_refl) (BrRefl rs _))) Hx).
+      + exact (Hmid (set_page_err v1 msg) b2 (SErr e msg) Hr Hx).
+    - exact (Hmid v1 b2 (SPanic n) Hr Hx).
+    - exact (Hmid v1 b2 SFuel Hr Hx). }
+  destruct (parse_args op b1) as [[i b2]|e|n] eqn:Epa.
+  - destruct (exec_instr rs sep (if getf (v_st v) FLAG_LANG then match s_lang (resetf (v_st v) FLAG_LANG) with Some l => Some l | None => lang end else lang) i b2) as [[v1 b2'] s1] eqn:Eex in H.
+    apply exec_instr_buf in Eex.
+    destruct (decode_consumes _ _ _ _ _ Eop Epa) as (n2 & Hb2 & _).
+    refine (Hstep v1 b2' s1 _ _ H).
+    apply (BrConsume rs b n2). rewrite <- Hb2. exact (buf_reach_effect _ _ _ _ Eex (BrRefl rs _)).
+  - refine (Hstep _ b1 (SErr EGen None) _ _ H).
+    apply (BrConsume rs b n1). rewrite <- Hb1. apply BrRefl.
+  - inversion H as [[Hv Hb Hs]]. rewrite <- Hb. apply (BrConsume rs b n1). rewrite <- Hb1. apply BrRefl.
+Qed.
+
+(* ... and therefore a run of repaired operations of model/SliceHeap.v, for every resource table that
+   holds the application's code (whatever the spare capacities) *)
+
+Definition covers (rs : rsrc) (tbl : list (list N * list N)) : Prop :=
+  forall sym c, rs_code rs sym = Ok c -> exists k, res_code tbl k = Some c.
+
+Lemma run_is_op_trace rs tbl code : covers rs tbl -> forall b b',
+  buf_reach rs b b' ->
+  exists ops, forallb op_repaired ops = true /\ pure_exec tbl (b, code) ops = (b', code).
+Proof.
+  intros Hcov b b' H. induction H as [b|b n b' _ IH|b sym c b' Hc _ IH|b sym c b' Hc _ IH|b d b' Hd _ IH].
+  - exists []. split; reflexivity.
+  - destruct IH as (ops & H1 & H2). exists (OpConsume n :: ops). split; [exact H1|exact H2].
+  - destruct IH as (ops & H1 & H2). destruct (Hcov _ _ Hc) as [k Hk].
+    exists (OpAppendFromResource k :: ops). split; [exact H1|].
+    unfold pure_exec. cbn [fold_left pure_step]. rewrite Hk. exact H2.
+  - destruct IH as (ops & H1 & H2). destruct (Hcov _ _ Hc) as [k Hk].
+    exists (OpReplaceFromResource k :: ops). split; [exact H1|].
+    unfold pure_exec. cbn [fold_left pure_step]. rewrite Hk. exact H2.
+  - destruct IH as (ops & H1 & H2). exists (OpReplaceFresh d :: ops). split; [exact H1|exact H2].
+Qed.
+
+(* the table of an application: node k = k-th entry of a_code, any spare capacity per node *)
+Definition tbl_of (a : app) (sp : list N -> list N) : list (list N * list N) :=
+  map (fun kv => (snd kv, sp (fst kv))) (a_code a).
+
+Lemma tbl_of_covers a sp : covers (app_rsrc a) (tbl_of a sp).
+Proof.
+  unfold covers, tbl_of, app_rsrc. cbn [rs_code]. intros sym c.
+  induction (a_code a) as [|[k v] l IH]; cbn [alookup]; [discriminate|].
+  destruct (bytes_eqb sym k).
+  - intros H. inversion H; subst. exists 0. reflexivity.
+  - intros H. destruct (IH H) as [i Hi]. exists (i + 1).
+    unfold res_code, res_entry in *. replace (N.to_nat (i + 1)) with (S (N.to_nat i)) by lia. exact Hi.
+Qed.
+
+(* composition: a Run of the VmModel on value-semantics code b, replayed on the slice heap by session s
+   while any other sessions do anything repaired in between, leaves s with exactly the code the
+   VmModel computed *)
+Lemma vm_run_on_heap a sp c fuel sep lang b code v v' b' st :
+  sc_res c = tbl_of a sp ->
+  run fuel (app_rsrc a) sep lang b v = (v', b', st) ->
+  exists ops, forallb op_repaired ops = true /\
+    forall w s sched w' tr,
+      winv (sc_res c) w -> wobs w s = (b, code) ->
+      sched_repaired sched = true -> map snd (sched_of s sched) = ops ->
+      run_sched c w sched = (w', tr) -> wobs w' s = (b', code).
+Proof.
+  intros Hres Hrun. apply run_buf_reach in Hrun.
+  destruct (run_is_op_trace _ _ code (tbl_of_covers a sp) _ _ Hrun) as (ops & H1 & H2).
+  exists ops. split; [exact H1|].
+  intros w s sched w' tr Hinv Hobs Hrep Hops Hsched.
+  destruct (run_refines c _ _ _ _ Hrep Hinv Hsched) as (_ & _ & R & _).
+  rewrite R, Hops, Hobs, Hres. exact H2.
+Qed.
+
+(* the request functions of EngineModel see one session's engine / store and the immutable resource:
+   serving any interleaving of requests gives every session the responses and the final state it gets alone *)
+Lemma requests_long_noninterfering fuel rs cf sched (w : N -> engine) sid :
+  of_sid sid (snd (serve (request_long fuel rs cf) w sched))
+  = snd (serve_solo (request_long fuel rs cf) (w sid) (of_sid sid sched)) /\
+  fst (serve (request_long fuel rs cf) w sched) sid
+  = fst (serve_solo (request_long fuel rs cf) (w sid) (of_sid sid sched)).
+Proof. apply serve_noninterference. Qed.
+
+Lemma requests_persisted_noninterfering fuel rs cf sched (w : N -> pworld) sid :
+  of_sid sid (snd (serve (request_persisted fuel rs cf) w sched))
+  = snd (serve_solo (request_persisted fuel rs cf) (w sid) (of_sid sid sched)) /\
+  fst (serve (request_persisted fuel rs cf) w sched) sid
+  = fst (serve_solo (request_persisted fuel rs cf) (w sid) (of_sid sid sched)).
+Proof. apply serve_noninterference. Qed.
+
+(* ---- 6. the pre-repair CATCH (OpAdopt): two sessions, one goroutine ------------------------------------ *)
+(* node 0: three bytes of code and eight bytes of spare capacity (0xEE); nodes 1 and 2: two bytes each *)
+Definition adopt_tbl : list (list N * list N) := [([9; 9; 9], rep 238 8); ([1; 1], []); ([2; 2], [])].
+Definition adopt_cfg : scfg := mkScfg (fun _ _ _ need => 2 * need) adopt_tbl.
+(* both sessions CATCH to node 0, then each MOVEs on (1 to node 1, 2 to node 2), then 1 decodes on *)
+Definition adopt_sched : list (N * op) :=
+  [(1, OpAdopt 0); (2, OpAdopt 0); (1, OpAppendFromResource 1); (2, OpAppendFromResource 2); (1, OpConsume 3)].
+
+Lemma adopt_refuted :
+  exists c w sched s,
+    winv (sc_res c) w /\ sched_repaired sched = false /\
+    (* session s reads other bytes than when it runs alone *)
+    obs_of s (snd (run_sched c w sched)) <> obs_of s (snd (run_sched c w (sched_of s sched))) /\
+    last (obs_of s (snd (run_sched c w sched))) ([], []) = ([2; 2], []) /\
+    last (obs_of s (snd (run_sched c w (sched_of s sched)))) ([], []) = ([1; 1], []) /\
+    (* and a write has landed in a shared array *)
+    w_heap (fst (run_sched c w sched)) (OShared, 0) <> res_heap (sc_res c) (OShared, 0).
+Proof.
+  exists adopt_cfg, (world_init adopt_tbl), adopt_sched, 1.
+  split; [apply winv_init|]. split; [reflexivity|].
+  split; [intros H; vm_compute in H; discriminate H|].
+  split; [vm_compute; reflexivity|]. split; [vm_compute; reflexivity|].
+  intros H; vm_compute in H; discriminate H.
+Qed.
+
+(* the same schedule with the repaired CATCH *)
+Definition repaired_sched : list (N * op) :=
+  [(1, OpReplaceFromResource 0); (2, OpReplaceFromResource 0); (1, OpAppendFromResource 1);
+   (2, OpAppendFromResource 2); (1, OpConsume 3); (3, OpReplaceFresh [7; 7]); (1, OpStore); (2, OpConsume 4);
+   (3, OpAppendFromResource 0); (1, OpTake); (1, OpAppendFromResource 2); (1, OpDecodeFresh)].
+
+Lemma repaired_example :
+  sched_repaired repaired_sched = true /\
+  obs_of 1 (snd (run_sched adopt_cfg (world_init adopt_tbl) repaired_sched))
+  = [([9; 9; 9], []); ([9; 9; 9; 1; 1], []); ([1; 1], []); ([], [1; 1]); ([1; 1], []); ([1; 1; 2; 2], []); ([], [])] /\
+  obs_of 2 (snd (run_sched adopt_cfg (world_init adopt_tbl) repaired_sched))
+  = [([9; 9; 9], []); ([9; 9; 9; 2; 2], []); ([2], [])] /\
+  (* steps 3 and 4: the appends of sessions 1 and 2 are IN PLACE (the copy made by CATCH had room), each in
+     its own array; step 11 does not fit any more and moves session 1 to its second array *)
+  map te_writes (snd (run_sched adopt_cfg (world_init adopt_tbl) repaired_sched))
+  = [[(OOwned 1, 0)]; [(OOwned 2, 0)]; [(OOwned 1, 0)]; [(OOwned 2, 0)]; []; [(OOwned 3, 0)]; []; [];
+     [(OOwned 3, 1)]; []; [(OOwned 1, 1)]; []] /\
+  w_heap (fst (run_sched adopt_cfg (world_init adopt_tbl) repaired_sched)) (OShared, 0) = [9; 9; 9] ++ rep 238 8.
+Proof. vm_compute. repeat split; reflexivity. Qed.
